@@ -195,6 +195,18 @@ fn outcome_of(b: &Burst, w: &mut World) -> Outcome {
             let key = if src == server { server.clone() } else { src.split('!').next().unwrap_or("").to_string() };
             by_src.entry(key).or_default().push(canon_line(&server, l));
         }
+        // the copies one command sends to one receiver (a channel copy and a direct copy,
+        // two channels) leave the handler in hash order: a sender that issues a single
+        // command in the burst has no order between commands to keep
+        for (key, v) in by_src.iter_mut() {
+            if *key == server {
+                continue;
+            }
+            let cmds = b.users.iter().find(|(_, n, _)| n == key).map(|(s, _, _)| b.lines.iter().filter(|(ls, _)| ls == s).map(|(_, l)| l.len()).sum::<usize>());
+            if cmds == Some(1) {
+                v.sort();
+            }
+        }
         conns.push((nick, closed, by_src.into_iter().collect()));
     }
     Outcome { state: hash128(&snap), conns }
